@@ -745,7 +745,8 @@ class LayoutHandler(LayoutManager):
             assert arr.base is tobuffer
 
             # Use the list of slices to access the relevant elements on the block
-            ranges[axis[1]] = slice(split_length)
+            # (axis[1] has moved to position axis[0] if it was swapped with the first axis)
+            ranges[axis[0] if axis[1] == 0 else axis[1]] = slice(split_length)
             arrView = arr[tuple(ranges)]
             assert arrView.base is tobuffer
 
@@ -818,7 +819,8 @@ class LayoutHandler(LayoutManager):
 
                 # Get a view on the block
                 bufRanges = [slice(x) for x in source_shape]
-                bufRanges[axis[1]] = slice(layout_dest.shape[axis[0]])
+                bufRanges[axis[0] if axis[1] == 0 else axis[1]] = slice(
+                    layout_dest.shape[axis[0]])
                 bufRanges[0] = slice(
                     start, start+layout_source.mpi_lengths(axis[0])[r])
 
